@@ -203,6 +203,12 @@ def case_discrete(case, res):
     rng = rng_for(case["seed"], "c13-disc", case["idx"])
     kind = str(rng.choice(["finite", "finite", "bernoulli"]))
     lik = str(rng.choice(["normal", "poisson", "none"]))
+    if case["idx"] % 5 == 3:
+        # the joint log-density is far outside the range in which exp() is finite in float32:
+        # many observations (about -500) or a sharply concentrated likelihood (about +150)
+        lik = ["normal_many", "normal_sharp"][(case["idx"] // 5) % 2]
+    if case["idx"] % 5 == 4:
+        kind = "onehot"
     if kind == "finite":
         K = int(rng.integers(2, 7))
         outcomes = np.sort(rng.choice(np.arange(0, 9), size=K, replace=False)).astype(np.float32)
@@ -227,6 +233,18 @@ def case_discrete(case, res):
         prior = lsl.Dist(tfd.FiniteDiscrete, outcomes=grid, probs=jnp.asarray(pr))
         kv = lsl.Var(init, prior, name="k")
         outs = None
+    elif kind == "onehot":
+        # a vector-valued discrete variable: one-hot indicator with the rows of the identity as outcome set
+        K = int(rng.integers(3, 5))
+        pr = rng.dirichlet(np.ones(K)).astype(np.float32)
+        pr = np.maximum(pr, 0.02)
+        pr = (pr / pr.sum()).astype(np.float32)
+        outcomes = np.eye(K, dtype=np.float32)
+        levels = np.round(rng.normal(0, 1.5, size=K), 2).astype(np.float32)
+        prior = lsl.Dist(tfd.OneHotCategorical, probs=jnp.asarray(pr), dtype=jnp.float32)
+        kv = lsl.Var(jnp.asarray(outcomes[0]), prior, name="k")
+        outs = jnp.asarray(outcomes)
+        lik = "onehot_normal"
     else:
         p1 = float(np.round(rng.uniform(0.02, 0.98), 3)) if rng.random() < 0.8 else float(rng.choice([0.0, 1.0]))
         outcomes = np.array([0, 1], np.int32)
@@ -237,7 +255,18 @@ def case_discrete(case, res):
     nodes = [kv]
     n = int(rng.integers(1, 6))
     c = float(np.round(rng.uniform(0.2, 1.5), 2))
-    if lik == "normal":
+    if lik == "onehot_normal":
+        y = rng.normal(float(levels.mean()), 1.2, size=n).astype(np.float32)
+        mu = lsl.Var(lsl.Calc(lambda k: jnp.sum(k * jnp.asarray(levels)), kv), name="mu")
+        nodes.append(lsl.obs(jnp.asarray(y), lsl.Dist(tfd.Normal, loc=mu, scale=1.0), name="y"))
+    elif lik in ("normal_many", "normal_sharp"):
+        n = 300 if lik == "normal_many" else 40
+        sd = 0.9 if lik == "normal_many" else 0.02
+        centre = float(rng.choice(outcomes)) * c
+        y = rng.normal(centre, sd if lik == "normal_many" else 0.004, size=n).astype(np.float32)
+        mu = lsl.Var(lsl.Calc(lambda k: jnp.asarray(k, jnp.float32) * c, kv), name="mu")
+        nodes.append(lsl.obs(jnp.asarray(y), lsl.Dist(tfd.Normal, loc=mu, scale=sd), name="y"))
+    elif lik == "normal":
         y = rng.normal(outcomes.mean() * c, 1.5, size=n).astype(np.float32)
         mu = lsl.Var(lsl.Calc(lambda k: jnp.asarray(k, jnp.float32) * c, kv), name="mu")
         nodes.append(lsl.obs(jnp.asarray(y), lsl.Dist(tfd.Normal, loc=mu, scale=float(rng.choice([0.7, 1.5, 4.0]))), name="y"))
@@ -247,7 +276,8 @@ def case_discrete(case, res):
         nodes.append(lsl.obs(jnp.asarray(y), lsl.Dist(tfd.Poisson, rate=rate), name="y"))
     if rng.random() < 0.5:
         # a latent (non-observed) parameter whose prior depends on the discrete variable
-        sc = lsl.Var(lsl.Calc(lambda k: 0.5 + 0.4 * jnp.asarray(k, jnp.float32), kv), name="lat_scale")
+        sc = lsl.Var(lsl.Calc((lambda k: 0.5 + 0.4 * jnp.argmax(k).astype(jnp.float32)) if kind == "onehot" else
+                              (lambda k: 0.5 + 0.4 * jnp.asarray(k, jnp.float32)), kv), name="lat_scale")
         lat = lsl.param(jnp.asarray(rng.normal(size=2).astype(np.float32) * 2.0), lsl.Dist(tfd.Normal, loc=0.0, scale=sc), name="lat")
         nodes.append(lat)
         lik = lik + "+latent"
@@ -286,11 +316,20 @@ def case_discrete(case, res):
             "conditional": np.round(probs, 5).tolist(), "N": N, "state_changed_after_kernel_built": changed}
     st = {}
     res.mon("discrete_category_frequencies", len(outcomes))
-    if not np.all(np.isin(draws, outcomes)):
-        res.violation("discrete-draw-outside-outcomes", f"draws outside the outcome set: {np.unique(draws).tolist()}", desc)
+    if draws.shape != (N,) + outcomes.shape[1:]:
+        res.violation("discrete-draw-outside-outcomes", f"a draw has shape {draws.shape[1:]}, the members of the outcome set have "
+                      f"shape {outcomes.shape[1:]}", desc)
+        return
+    o2 = np.asarray(outcomes).reshape(len(outcomes), -1)
+    d2 = draws.reshape(N, -1)
+    which = np.full(N, -1)
+    for j in range(len(o2)):
+        which[np.all(d2 == o2[j], axis=1)] = j
+    if np.any(which < 0):
+        res.violation("discrete-draw-outside-outcomes", f"draws outside the outcome set: {np.unique(d2[which < 0], axis=0)[:5].tolist()}", desc)
         return
     for j, o in enumerate(outcomes):
-        cnt = int(np.sum(draws == o))
+        cnt = int(np.sum(which == j))
         pj = probs[j]
         if N * pj * (1 - pj) > 9:
             st[f"category|{j}"] = float((cnt - N * pj) / np.sqrt(N * pj * (1 - pj)))
